@@ -324,12 +324,13 @@ def r0_urls(ctx):
 
 def run(ctx):
     r0, ok, why = r0_urls(ctx)
-    if ok:
+    import os
+    if ok and not os.environ.get("VERIF_FORCE_FALLBACK"):
         return [r0]
     # a construct outside rules/absint.py: fall back to the structural clauses on the same functions
     prog = ctx.mir("main")
     rules = [r1_whole_segment(ctx, prog), r2_rewrite(ctx), r3_segments(ctx)]
-    if not r0.violations:
+    if not ok and not r0.violations:
         r0.inst("evaluation not available", "fallback to structural rules R1-R3: %s" % str(why)[:160])
         r0.floor = 1
     return [r0] + rules
